@@ -133,7 +133,7 @@ func init() {
 			return ds
 		},
 		alpha:    []string{"--a", "--s", "v", "--so", "--l", "c", "p", "-", "--zz", "--", "-az", "--d"},
-		alphaExt: []string{"dep", "deploy", "--force", "-=x", "--=x", "e", "--late", "", "w"}, // the unique beginning of a command name is not the command; dashes followed by `=` name no option; a sub-command below the command that sets require-order; the empty string
+		alphaExt: []string{"dep", "deploy", "--force", "-=x", "--=x", "e", "--late", "", "w", "--qu"}, // the unique beginning of a command name is not the command; dashes followed by `=` name no option; a sub-command below the command that sets require-order; the empty string
 		depthQ:   5, depthT: 6,
 		facets: ph.AllFacets,
 		extra: func(pc *parserCase, info specInfo) ([]string, []string) {
@@ -188,8 +188,9 @@ func defC09() *ph.Def {
 			{Name: "s", Kind: ph.Str},
 			{Name: "so", Kind: ph.StrOpt, DefS: "D"},
 			{Name: "l", Kind: ph.StrS, Min: 1, Max: 2},
+			{Name: "quiet", Kind: ph.Bool}, // given through its abbreviation --qu
 		},
 		Cmds: []*ph.CmdDef{{Name: "c", Opts: []ph.OptDef{{Name: "d", Kind: ph.Bool}}, Cmds: []*ph.CmdDef{{Name: "e", Opts: []ph.OptDef{{Name: "late", Kind: ph.Bool}}}}}, {Name: "deploy", Opts: []ph.OptDef{{Name: "force", Kind: ph.Bool}}},
-			{Name: "w", Unset: true, Unknown: 3}}, // a wrapper inherits the require-order of the program
+			{Name: "w", Unset: true, Unknown: 3, Cmds: []*ph.CmdDef{{Name: "e"}}}}, // a wrapper inherits the require-order of the program; below it the program's options stay unknown
 	}}
 }
